@@ -192,7 +192,19 @@ def execute(case):
                 for name in model.np:
                     st = h.status(name)
                     if st != 'active':
+                        # no history of this check asks for a stop, removes
+                        # a watcher or installs a hook: a watcher can only
+                        # leave the property's domain by the daemon's own
+                        # doing, and then its target is never met
                         classes.append('not-active-at-settle')
+                        if model.np[name] != len(w.live(name)):
+                            viols.append(Violation(
+                                'C01:left-active-state',
+                                'watcher %s reports %r although nothing '
+                                'asked it to stop; numprocesses is %d with '
+                                '%d live workers' % (
+                                    name, st, model.np[name],
+                                    len(w.live(name)))))
                         continue
                     np_rep = h.option(name, 'numprocesses')
                     cnt = h.numprocesses(name)
